@@ -5,6 +5,7 @@
 package runner
 
 import (
+	"runtime/pprof"
 	"syscall"
 	"crypto/sha1"
 	"encoding/json"
@@ -168,6 +169,11 @@ func Main(p Property) {
 		os.Exit(doReplay(p, *replay))
 	}
 	if *worker >= 0 {
+		if pf := os.Getenv("VS_CPUPROFILE"); pf != "" {
+			f, _ := os.Create(fmt.Sprintf("%s.%d", pf, *worker))
+			pprof.StartCPUProfile(f)
+			defer pprof.StopCPUProfile()
+		}
 		runWorker(p, scs, *tier, *worker, *nshards, *out, *tmpdir)
 		return
 	}
@@ -282,7 +288,7 @@ func runParent(p Property, scs []Sc, tier string, seed int64, n int, evidencePat
 		}
 		cmd := exec.Command(os.Args[0], args...)
 		cmd.SysProcAttr = &syscall.SysProcAttr{Pdeathsig: syscall.SIGKILL}
-		cmd.Env = append(os.Environ(), "GOMAXPROCS=2", "GOGC=200")
+		cmd.Env = append(os.Environ(), "GOMAXPROCS=1", "GOGC=200")
 		cmd.Stdout = os.Stderr
 		cmd.Stderr = os.Stderr
 		if err := cmd.Start(); err != nil {
